@@ -146,6 +146,20 @@ fn added_data_mode(input: &Input, out: &mut CaseOut) -> Result<(), Failure> {
     if crate::optable::validate_walrus(&bytes).is_err() {
         return Ok(());
     }
+    // an active element segment on an imported funcref table, likewise
+    // unregistered
+    let add_elem = |m: &mut Module| {
+        // (imported tables only: segments of module-defined tables are found
+        // through Table::elem_segments, which an API user has to maintain)
+        let tabs: Vec<TableId> = m.tables.iter().filter(|t| t.import.is_some() && t.element_ty == RefType::Funcref && !t.table64).map(|t| t.id()).collect();
+        let f = m.funcs.iter().next().map(|f| f.id());
+        if let (Some(t), Some(f)) = (tabs.first().copied(), f) {
+            m.elements.add(
+                ElementKind::Active { table: t, offset: ConstExpr::Value(ir::Value::I32(0)) },
+                ElementItems::Functions(vec![f]),
+            );
+        }
+    };
     let build = |gc: bool| -> Option<Vec<u8>> {
         let cfg = crate::wal::Cfg::plain().to_config();
         let mut m = match crate::wal::parse(&bytes, &cfg) {
@@ -161,10 +175,12 @@ fn added_data_mode(input: &Input, out: &mut CaseOut) -> Result<(), Failure> {
                 _ => None,
             })
             .collect();
-        let mem = *visible.first()?;
-        let m64 = m.memories.get(mem).memory64;
-        let offset = if m64 { ConstExpr::Value(ir::Value::I64(1)) } else { ConstExpr::Value(ir::Value::I32(1)) };
-        m.data.add(DataKind::Active { memory: mem, offset }, vec![0xAB, 0xCD, 0xEF]);
+        if let Some(mem) = visible.first().copied() {
+            let m64 = m.memories.get(mem).memory64;
+            let offset = if m64 { ConstExpr::Value(ir::Value::I64(1)) } else { ConstExpr::Value(ir::Value::I32(1)) };
+            m.data.add(DataKind::Active { memory: mem, offset }, vec![0xAB, 0xCD, 0xEF]);
+        }
+        add_elem(&mut m);
         if gc && crate::wal::gc(&mut m).is_err() {
             return None;
         }
@@ -185,7 +201,7 @@ fn added_data_mode(input: &Input, out: &mut CaseOut) -> Result<(), Failure> {
     let (sa, sbb) = match (crate::exec::observe(&a, &script, host_seed, true), crate::exec::observe(&b, &script, host_seed, true)) {
         (Ok(x), Ok(y)) => (x, y),
         (Ok(_), Err(e)) if !e.starts_with("interpreter-panic") => {
-            return Err(Failure::new("api-added-data:gc-output-not-loadable", format!("{} [{}]", e, origin)));
+            return Err(Failure::new("api-added-segment:gc-output-not-loadable", format!("{} [{}]", e, origin)));
         }
         _ => return Ok(()),
     };
@@ -194,11 +210,11 @@ fn added_data_mode(input: &Input, out: &mut CaseOut) -> Result<(), Failure> {
     }
     if let crate::exec::Cmp::Differ { at, what, detail } = crate::exec::compare_opts(&sa, &sbb, true) {
         return Err(Failure::new(
-            format!("api-added-data:behaviour-differs:{}", what),
-            format!("an active data segment was added through ModuleData::add; with GC before emit: step {}: {} [{}]", at, detail, origin),
+            format!("api-added-segment:behaviour-differs:{}", what),
+            format!("active data / element segments were added through ModuleData::add / ModuleElements::add; with GC before emit: step {}: {} [{}]", at, detail, origin),
         ));
     }
-    out.label("mode:api-added-active-data");
+    out.label("mode:api-added-active-segments");
     Ok(())
 }
 
